@@ -8,6 +8,7 @@ from penman.tree import Tree
 
 from pmon.gen import trees as T, models as M, strings as S
 from pmon.checks import _trees
+from pmon.probe import interpret_disagreement as probe_disagreement
 
 ID = 'C04'
 PYTEST_LAW = 'C04'     # also run /repo's own tests with this property's law attached
@@ -24,7 +25,7 @@ ANCHORS = ['penman.layout:interpret', 'penman.layout:_interpret_node', 'penman.l
            'penman.model:Model.deinvert', 'penman.models.noop:NoOpModel.deinvert']
 PROBES = {'C04': 0}
 MIN_EVAL = {'quick': 3000, 'thorough': 100000}
-REQUIRED_COUNTERS = ['illformed', 'wellformed', 'model:noop']
+REQUIRED_COUNTERS = ['illformed', 'wellformed', 'model:noop', 'model_churn_rounds']
 ASSUMPTIONS = ['compensating errors are possible only if reference and code misread the docs the same way']
 MODELS_RANDOM = ['default', 'amr', 'noop', 'mini'] + [f'rand{i}' for i in range(12)]
 
@@ -47,6 +48,8 @@ def cases(ctx):
         if not ctx.time_left():
             break
         yield 'rand', {'i': i}
+        if i % 10 == 0:
+            yield 'churn', {'i': i}
 
 
 def oracle(ctx, kind, p):
@@ -76,6 +79,27 @@ def oracle(ctx, kind, p):
                 ctx.enumerated(nontrivial=len(t.node[1]) > 0)
                 ctx.count('wellformed' if _trees.wellformed(t.node, M.get(mname)[2]) else 'illformed')
                 ctx.count('model:' + mname)
+    elif kind == 'churn':
+        # one text read alternately under short-lived models of two tables that disagree on a role
+        from pmon.checks import _graphs
+        rng = ctx.rng('churn', p['i'])
+        d, mk1, mk2 = _graphs.churn_models(rng)
+        s = f'(a / alpha {d} (b / beta :quant 0 {d} a) :ARG0 (c {d} b~e.1) {d}-of c)'
+        node = penman.parse(s).node
+        for k in range(6):
+            model, rm = (mk1 if k % 2 == 0 else mk2)()
+            ctx.current = ['text', {'s': s, 'model': rm.name}]
+            _trees.c04(ctx, node, rm.name, model_rm=(model, rm))
+            ctx.case((p['i'], k, d), True)
+            del model
+            if k % 2:
+                ok, g = ctx.call(penman.decode, s, clause='decode(no model)')
+                if ok:
+                    dd = probe_disagreement(penman.parse(s), None, g)
+                    if dd and dd != 'skip':
+                        ctx.fail('interpret!=reference(no model argument)', mech=dd.split()[0],
+                                 detail={'text': s, 'diff': dd[:400]})
+        ctx.count('model_churn_rounds')
     elif kind == 'text':
         t = penman.parse(p['s'])
         _trees.c04(ctx, t.node, p['model'], t.metadata)
